@@ -1,7 +1,7 @@
 (* Corr/C11.v -- correspondence interface for C11: the harness writes
    (input, observed) pairs; `check` compares the observation of the real
    implementation with the model evaluated inside Coq. *)
-From Geff Require Export Base Dtype Vlen.
+From Geff Require Export Base Dtype Vlen VlenCast VlenX.
 Open Scope list_scope.
 
 Inductive input :=
@@ -10,14 +10,24 @@ Inductive input :=
 | IResult (ds : list dtype)                         (* np.result_type over ds *)
 | ISer (vals : list varr)                           (* serialize_vlen_property_data *)
 | IDeser (rows : list (list nat)) (data : list Z)   (* deserialize_vlen_property_data *)
-| ICons (l : list (option varr)).                   (* construct_var_len_props *)
+| ICons (l : list (option varr))                    (* construct_var_len_props *)
+(* dtype-identity level (VlenX.v): byte order, string width, object dtype, `missing` *)
+| IXCast (a b : xdt)                                (* np.can_cast on descriptors *)
+| IXResult (ds : list xdt)                          (* np.result_type on descriptors *)
+| IXSer (vals : list xvarr) (missing : option (list bool))
+| IXDeser (rows : list (list nat)) (missing : option (list bool)) (ddt : xdt) (data : list Z)
+| IXCons (l : list (option xvarr))
+| IXPipe (l : list (option xvarr)).                 (* construct -> serialize -> deserialize *)
 
 Inductive obs :=
 | OBool (b : bool)
 | ODt (o : option dtype)
 | OSer (r : res (list (list nat) * list Z * dtype))
 | ODeser (r : res (list (list nat * list Z)))
-| OCons (r : res (list varr * option (list bool))).
+| OCons (r : res (list varr * option (list bool)))
+| OXDt (o : option xdt)
+| OXSer (r : res (list (list nat) * option (list bool) * list Z * xdt))
+| OXVals (r : res (list xvarr * option (list bool))).
 
 Definition model (i : input) : obs :=
   match i with
@@ -29,10 +39,30 @@ Definition model (i : input) : obs :=
                        | Err e => Err e end)
   | IDeser rows data => ODeser (deserialize rows data)
   | ICons l => OCons (construct l)
+  | IXCast a b => OBool (xcan_cast a b)
+  | IXResult ds => OXDt (xresult_type ds)
+  | IXSer vals missing => OXSer (xserialize vals missing)
+  | IXDeser rows missing ddt data => OXVals (xdeserialize rows missing ddt data)
+  | IXCons l => OXVals (xconstruct l)
+  | IXPipe l => OXVals (xpipeline l)
   end.
 
 Definition varr_eqb (a b : varr) : bool :=
   dtype_eqb (v_dt a) (v_dt b) && natlist_eqb (v_shape a) (v_shape b) && zlist_eqb (v_flat a) (v_flat b).
+
+(* short constructors for the terms the harness prints (the record syntax {| .. |} is slow to elaborate) *)
+Definition mkd (b : dtype) (s : bool) (w : nat) : xdt := {| x_base := b; x_swap := s; x_width := w |}.
+Definition mkx (d : xdt) (sh : list nat) (fl : list Z) : xvarr := {| xv_dt := d; xv_shape := sh; xv_flat := fl |}.
+
+(* descriptors are compared structurally: a byte-order or width difference is a mismatch *)
+Definition xvarr_eqb (a b : xvarr) : bool :=
+  xdt_same (xv_dt a) (xv_dt b) && natlist_eqb (xv_shape a) (xv_shape b) && zlist_eqb (xv_flat a) (xv_flat b).
+Definition xvals_eqb (p q : list xvarr * option (list bool)) : bool :=
+  list_eqb xvarr_eqb (fst p) (fst q) && option_eqb boollist_eqb (snd p) (snd q).
+Definition xser_eqb (p q : list (list nat) * option (list bool) * list Z * xdt) : bool :=
+  list_eqb natlist_eqb (fst (fst (fst p))) (fst (fst (fst q)))
+  && option_eqb boollist_eqb (snd (fst (fst p))) (snd (fst (fst q)))
+  && zlist_eqb (snd (fst p)) (snd (fst q)) && xdt_same (snd p) (snd q).
 
 Definition obs_eqb (a b : obs) : bool :=
   match a, b with
@@ -45,6 +75,9 @@ Definition obs_eqb (a b : obs) : bool :=
       res_eqb (list_eqb (prod_eqb natlist_eqb zlist_eqb)) x y
   | OCons x, OCons y =>
       res_eqb (prod_eqb (list_eqb varr_eqb) (option_eqb boollist_eqb)) x y
+  | OXDt x, OXDt y => option_eqb xdt_same x y
+  | OXSer x, OXSer y => res_eqb xser_eqb x y
+  | OXVals x, OXVals y => res_eqb xvals_eqb x y
   | _, _ => false
   end.
 
